@@ -66,6 +66,12 @@ CLAIMS["C18"] = dict(
    note=TRUST + ". Assumed: errors.As writes only *target; sync.Pool hands an object to one taker at a time; the store's symbol table holds no *entitySetSymbolRuntime (nothing in the repository adds one; not mechanised). The snapshot-isolation clause and the race-freedom of third-party code are not decided by this check: a violation of those clauses would not be reported.",
    technique="contract-based deductive verification: frame (modifies) obligations and freshness postconditions over go/ssa VCs, ghost check-out set for pooled instances")
 
+CLAIMS["C09"] = dict(
+   text="Two of the property's clauses, proved on the real code of every integrity checker (uniqueIndex, setIndex, fkIndex, fkConstraint, linkCollectionImpl .CheckIntegrity and the store-level fan-out BaseStore.CheckIntegrity): (1) check-only mode is read-only - with fix == false the bucket content model (key sets, values, nested buckets of every bucket) is unchanged on every path; every bbolt write (Put, Delete, DeleteBucket, CreateBucket*, Cursor.Delete) names the model in its trusted modifies clause, so a write reachable in check mode fails the postcondition or a loop invariant; the store's own readers (GetEntitiesBucket, GetEntityBucket, IsEntityPresent, IterateIds, IterateValidIds), TypedBucket.GetPath, fkIndex.getIndexBucketReadOnly, uniqueIndex.Read, linkCollectionImpl.IterateLinks and LinkedSetSymbol.IsLinked are proved read-only rather than assumed; (2) the fixed flag is honest - every errorSink call is proved to pass fixed == true only when the run is in fix mode (ghost copy of the flag, precondition on the callback parameter). Three genuine check-mode writes were found this way and repaired (fix commits in known_findings.txt). NOT claimed: that every inconsistency is reported, that a consistent database yields no report, and single-pass convergence of fix mode - these quantify over what the loops do across all iterations while deleting under a live cursor; no contract within reach decides them and no bounded stand-in is registered.",
+   design="5/C09",
+   note=TRUST + ". Assumed: the bbolt bucket model; that the error sink, symbol evaluation (EntitySymbol.Eval, runtime set symbols) and filter evaluation inside newFilteredCursor only read the database; uniqueIndex: the index bucket exists (it is created by Initialize; when it is missing, getIndexBucket creates it even in check mode - outside the property's corruption classes, recorded in DESIGN.md). Panic-freedom of the checkers and the cursor-protocol preconditions inside them are not part of this claim (waived, listed per run).",
+   technique="contract-based deductive verification: frame-style postcondition over a ghost bucket model, loop invariants, callback precondition via a ghost flag, SMT")
+
 NA = {
  "C12": "not applicable to contract-based verification of the repository's Go code: how 'a and b or c', parentheses, keyword case and whitespace group is decided by ANTLR's ATN interpreter (AdaptivePredict) running the serialized grammar embedded in zitiql_parser.go; the generated Go functions are a table-driven shell around it, so no precondition/postcondition on a repository function can state 'the tree for this text is that tree', and the ANTLR tool needed to regenerate or analyse the grammar is not available here. (The listener half - each connective node evaluates as its connective - is contract-shaped and is part of the C10 sweep's dispatch contracts.) Observed while reading: 'a and b or c' groups as 'a and (b or c)'; recorded in DESIGN.md section 7 for the maintainers.",
  "C17": "not applicable: equality of the whole database across close/rename/reopen, what concurrent transactions observe during the swap, and restore listeners firing after the swap are file-system and schedule properties of bbolt and the OS (os.Rename, file locks, goroutines); contracts over single calls of repository functions cannot express them, and the only contract-shaped fragment (DbImpl.GetTimelineId's flag logic) does not decide the property.",
